@@ -313,6 +313,34 @@ class Watch(object):
                 self.ctx.hit("argument_snapshot")
             check(snap(v) == self.before[k], "argument-modified",
                   "%s changed its argument %r" % (self.what, k))
+        # an application logs what it passes around: looking at an object
+        # (str, repr, hash, ==, iteration) is a library call too
+        for k, v in self.args.items():
+            show(v)
+            check(snap(v) == self.before[k], "argument-modified",
+                  "printing / comparing the argument %r of %s changed it" %
+                  (k, self.what))
+
+
+def show(obj, depth=0, budget=None):
+    budget = budget if budget is not None else [300]
+    if budget[0] <= 0 or depth > 4:
+        return
+    budget[0] -= 1
+    try:
+        str(obj)
+        repr(obj)
+        obj == obj
+        hash(obj)
+    except TypeError:
+        pass                        # unhashable
+    if isinstance(obj, dict):
+        for k_, v_ in list(obj.items())[:60]:
+            show(k_, depth + 1, budget)
+            show(v_, depth + 1, budget)
+    elif isinstance(obj, (list, tuple, set, frozenset)):
+        for v_ in list(obj)[:60]:
+            show(v_, depth + 1, budget)
 
 
 # ---------------------------------------------------------------- executor
